@@ -59,6 +59,51 @@ def analyse(qual, selfname="self"):
     return dict(reads=reads, writes=writes, calls=calls)
 
 
+_INVENTORY = None
+
+
+def _known(qual):
+    """functions that existed when the contracts were written (baseline/functions.json) have their own frames / contracts;
+    only helpers introduced by a change are folded into their caller's frame"""
+    global _INVENTORY
+    if _INVENTORY is None:
+        import json
+        from pathlib import Path
+
+        try:
+            _INVENTORY = json.loads((Path(__file__).resolve().parent.parent / "baseline" / "functions.json").read_text())
+        except Exception:
+            _INVENTORY = {}
+    mod, _, q = qual.partition(":")
+    return q in set(_INVENTORY.get(mod, []))
+
+
+def closure(qual, keep_calls=(), _seen=None):
+    """The frame of `qual` including the frames of the private helpers it calls on `self` (methods of the same class defined in
+    the same module): extracting a helper method does not change the frame. A callee that the obligation names explicitly
+    (keep_calls, e.g. `self.resolve`) stays a call - it has its own contract."""
+    seen = _seen if _seen is not None else set()
+    seen.add(qual)
+    a = analyse(qual)
+    out = dict(reads=set(a["reads"]), writes=set(a["writes"]), calls=set())
+    mod, _, q = qual.partition(":")
+    cls = q.rsplit(".", 1)[0] if "." in q else None
+    for c in a["calls"]:
+        callee = f"{mod}:{cls}.{c[5:]}" if (cls and c.startswith("self.")) else None
+        if callee and c not in keep_calls and callee not in seen and c[5:] != q.rsplit(".", 1)[-1] and not _known(callee):
+            try:
+                source.function(callee)
+            except Exception:
+                out["calls"].add(c)
+                continue
+            sub = closure(callee, keep_calls, seen)
+            for k in ("reads", "writes", "calls"):
+                out[k] |= sub[k]
+        else:
+            out["calls"].add(c)
+    return out
+
+
 def frame_task(name, checks):
     """checks: list of (obligation name, qual, kind, allowed set | forbidden set, mode) with kind in
     reads_within / writes_within / reads_none_of / calls_within."""
@@ -70,7 +115,7 @@ def frame_task(name, checks):
         try:
             source.reset()
             for obname, qual, kind, names in checks:
-                a = analyse(qual)
+                a = closure(qual, keep_calls=set(names) if kind.startswith("calls") else set())
                 res.functions.append((qual, source.fn_sha(qual)))
                 if kind == "reads_within":
                     bad = a["reads"] - set(names)
